@@ -10,7 +10,11 @@ fault:  ['get'] connection error | ['status'] HTTP error | ['nolen'] no content-
         | ['read', j] error in the j-th raw.read | ['zerr', j] error in the j-th read
         of the LZMA stream | ['corrupt', num, den] the .lzma file on disk is cut to
         num/den of its size (real lzma raises) | ['crash', k, sub, cls] process death
-        at model-level effect k (sub / cls: see lib/crashfs.py).
+        at model-level effect k (sub / cls: see lib/crashfs.py; bytes not yet flushed by the code
+        survive only as the prefix class cls) | ['flusherr', cls] the close of the written file fails
+        with an I/O error after the prefix class cls of the unflushed bytes reached the disk
+        | ['once', <get|status|nolen|read j>] TRANSIENT: only the first response of the call
+        misbehaves, every later request of the same call is served correctly.
 """
 import builtins
 import lzma as real_lzma
@@ -53,7 +57,8 @@ FINAL = {'download': 'data.lzma', 'decompress': 'data'}
 
 def _payload(n):
   import numpy as np
-  return ((np.arange(n, dtype=np.int64) * 7 + 3) % 251).astype(np.uint8).tobytes()
+  i = np.arange(n, dtype=np.int64)   # not periodic in the block size: duplicated / shifted blocks are visible
+  return ((i * 7 + (i >> 8) * 13 + (i >> 16) + 3) & 0xFF).astype(np.uint8).tobytes()
 
 
 _PAY = {}
@@ -78,6 +83,14 @@ class _Env:
     self.root, self.rec, self.payload, self.fault = root, rec, payload, fault
     self.net_touched = False
     self.read_sizes = []
+    self.responses = 0      # requests.get calls made during this call of the function under test
+
+  def response_fault(self, idx):
+    """The fault that applies to the idx-th requests.get of this call."""
+    f = self.fault
+    if f and f[0] == 'once':
+      return list(f[1:]) if idx == 0 else None
+    return f
 
   def rel(self, path):
     r = self.root.rstrip('/')
@@ -130,15 +143,15 @@ class _Os:
 
 class _Raw:
 
-  def __init__(self, env):
-    self._env, self._pos, self._j = env, 0, 0
+  def __init__(self, env, fault):
+    self._env, self._pos, self._j, self._fault = env, 0, 0, fault
 
   def read(self, n=-1):
     env = self._env
     j = self._j
     self._j += 1
     env.rec.effect(('read', j))
-    if env.fault == ['read', j]:
+    if self._fault == ['read', j]:
       raise _IOFault('connection reset (injected)')
     if n is None or n < 0:
       n = len(env.payload)
@@ -150,15 +163,15 @@ class _Raw:
 
 class _Response:
 
-  def __init__(self, env):
-    self._env = env
-    self.raw = _Raw(env)
-    self.headers = {} if env.fault == ['nolen'] else {'content-length': str(len(env.payload))}
-    self.status_code = 503 if env.fault == ['status'] else 200
+  def __init__(self, env, fault):
+    self._env, self._fault = env, fault
+    self.raw = _Raw(env, fault)
+    self.headers = {} if fault == ['nolen'] else {'content-length': str(len(env.payload))}
+    self.status_code = 503 if fault == ['status'] else 200
 
   def raise_for_status(self):
     self._env.rec.effect(('status',))
-    if self._env.fault == ['status']:
+    if self._fault == ['status']:
       import requests
       raise requests.exceptions.HTTPError('503 (injected)')
 
@@ -191,9 +204,11 @@ class _Requests:
     env = self._env
     env.net_touched = True
     env.rec.effect(('get',))
-    if env.fault == ['get'] or env.fault == ['forbidden']:
+    fault = env.response_fault(env.responses)
+    env.responses += 1
+    if fault == ['get'] or fault == ['forbidden']:
       raise self._real.exceptions.ConnectionError('no route (injected)')
-    return _Response(env)
+    return _Response(env, fault)
 
 
 class _ZFile:
@@ -292,7 +307,8 @@ def _attempt(case, root, fault, compressed):
   payload, _ = _data(case)
   kind = case['kind']
   crash = fault[1:] if fault and fault[0] == 'crash' else None
-  rec = crashfs.Recorder(*(crash if crash else (None, 0, 0)))
+  rec = crashfs.Recorder(*(crash if crash else (None, 0, 0)),
+                         close_error=fault[1] if fault and fault[0] == 'flusherr' else None)
   env = _Env(root, rec, payload, fault)
   final = FINAL[kind]
   if kind == 'decompress':
@@ -435,9 +451,11 @@ def oracle(case, obs):
   att = obs['attempts']
   for i, a in enumerate(att):
     if a['final'] is not None and a['final'] != ['w', n]:
-      out.append((f'{kind}-final-truncated',
-                  f'attempt {i} ({a["fault"]}): the final cache path exists with {a["final"][1]} bytes '
-                  f'({"a prefix of" if a["final"][0] == "w" else "not"} the {n}-byte payload)'))
+      # byte comparison with the payload: 'w' = a strict prefix of it, 'g' = not even a prefix
+      key = f'{kind}-final-truncated' if a['final'][0] == 'w' else f'{kind}-final-corrupt'
+      out.append((key, f'attempt {i} ({a["fault"]}, outcome {a["outcome"]}): the final cache path exists with '
+                  f'{a["final"][1]} bytes ({"a strict prefix of" if a["final"][0] == "w" else "NOT a prefix of"} '
+                  f'the {n}-byte payload)'))
       break
   ok = att[-2]
   if not (ok['outcome'] == 'ret' and ok.get('ret_ok') and ok['final'] == ['w', n]):
@@ -467,6 +485,8 @@ def _oev(e, kind):
     return 'OWr' if e[1] == part else 'OBad'
   if k == 'cl':
     return f'OCl {fw.zlit(e[2])}' if e[1] == part and e[2] >= 0 else 'OBad'
+  if k == 'clerr':
+    return 'OClErr' if e[1] == part else 'OBad'
   if k == 'rn':
     return 'ORn' if (e[1], e[2]) == (part, final) else 'OBad'
   if k == 'get':
@@ -511,6 +531,10 @@ def encode(case, obs):
   calls, ocalls = [], []
   for a in att:
     f = a['fault']
+    if f and f[0] == 'once':
+      f = list(f[1:])       # on the code as the model describes it (no retry inside a call) a transient fault
+                            # is the same as a persistent one
+    closes = fw.cbool(not (f and f[0] == 'flusherr'))
     crash = 'None'
     if kind == 'download':
       g, s, ln, rd = True, True, f'(Some {case["size"]})', list(sizes)
@@ -522,7 +546,7 @@ def encode(case, obs):
         ln = 'None'
       elif f and f[0] == 'read':
         rd = rd[:f[1]] + [None] if f[1] <= len(rd) else rd + [0] * (f[1] - len(rd)) + [None]
-      c = f'KDownload {fw.cbool(g)} {fw.cbool(s)} {ln} {_optlist(rd)}'
+      c = f'KDownload {fw.cbool(g)} {fw.cbool(s)} {ln} {_optlist(rd)} {closes}'
     else:
       rd = list(sizes)
       opened = True
@@ -532,7 +556,7 @@ def encode(case, obs):
         # the real decoder decides where the cut stream fails: take the index from the observation
         nread = sum(1 for e in a['trace'] if e[0] == 'zread')
         rd = rd[:max(nread - 1, 0)] + [None]
-      c = f'KDecompress {fw.cbool(opened)} {_optlist(rd)}'
+      c = f'KDecompress {fw.cbool(opened)} {_optlist(rd)} {closes}'
     if f and f[0] == 'crash':
       crash = f'(Some {f[1]}%nat)'
     calls.append(f'({c}, {crash})')
@@ -545,14 +569,20 @@ def encode(case, obs):
 # --------------------------------------------------------------------------
 
 def _crash_points(trace, raw_writes, full, rot):
+  """Every effect index 0..len; while a written file is open (its bytes may still be unflushed) every
+  prefix class of the unflushed bytes (full) or `none` + a rotating second class."""
   pts = []
-  for k, e in enumerate(trace):
-    if e[0] == 'wr':
-      cls = range(3) if full else [(rot + k) % 3]
-      pts += [['crash', k, 0, c] for c in cls]
+  nopen = 0
+  for k, e in enumerate(trace + [('end',)]):
+    if nopen > 0 or e[0] == 'wr':
+      classes = range(3) if full else sorted({0, 1 + (rot + k) % 2})
     else:
-      pts.append(['crash', k, 0, 0])
-  pts.append(['crash', len(trace), 0, 0])
+      classes = [0]
+    pts += [['crash', k, 0, c] for c in classes]
+    if e[0] == 'cr':
+      nopen += 1
+    elif e[0] in ('cl', 'clerr'):
+      nopen -= 1
   return pts
 
 
@@ -567,10 +597,12 @@ def _single_faults(case, full, rot):
   nreads = sum(1 for e in tr if e[0] in ('read', 'zread'))
   fs = []
   if kind == 'download':
-    fs += [['get'], ['status'], ['nolen']] + [['read', j] for j in range(nreads)]
+    inner = [['get'], ['status'], ['nolen']] + [['read', j] for j in range(nreads)]
+    fs += inner + [['once'] + f for f in inner]
   else:
     fs += [['zerr', j] for j in range(nreads)] + [['corrupt', 1, 2], ['corrupt', 9, 10]]
-  pts = _crash_points(tr, rw, True, rot)     # every prefix class at every write: the sequences are short
+  fs += [['flusherr', c] for c in range(3)]
+  pts = _crash_points(tr, rw, full, rot)
   return fs + pts
 
 
